@@ -196,7 +196,7 @@ func vpFromAlphabet(s string) bool {
 	return all
 }
 
-//vp:property C18
+//vp:property C18 C17 C16
 //vp:bounds authentication list = any subset of {openid, local, basic, kerberos, ntlm} (fixed order; the helpers only test membership); TLS mode in {auto, disable, other}; host selection in {roundrobin, signed, other}; query key, keytab: empty or not; cookie-auth flag; user-token flag; the sources spell their keys as the built-in defaults do (Server.Tls) or as the struct tags do (server.tls): both reach the decoder, only the first is what a getter for the default's path finds
 //vp:assume koanf has unmarshalled file and environment into the configuration structs (the values are arbitrary)
 //vp:reach started refused
@@ -245,6 +245,9 @@ func VP_C18_consistency() {
 	} else {
 		vpReach("started")
 		vpAssert(len(out.Server.Authentication) == len(authn), "configuration-returned-as-read")
+		// what the operator configured is what the gateway is built from (capabilities, TLS mode, host selection)
+		vpAssert(out.Caps.TokenAuth == vpIn.Caps.TokenAuth, "configured-token-authentication-switch-returned-as-read")
+		vpAssert(out.Server.Tls == vpIn.Server.Tls && out.Server.HostSelection == vpIn.Server.HostSelection, "configured-tls-mode-and-host-selection-returned-as-read")
 	}
 }
 
